@@ -6,7 +6,8 @@ import os, random, json, re
 import concurrent.futures as cf
 import vlib
 
-# (name, lines before load, lines after load, PUs).  "XML:<base>:<kind>" families are built from the XML export of <base>.
+# (name, lines before load, lines after load).  "XML:<base>:<edit>[+<edit>..]" families are built from the XML export of <base>
+# (see make_xml1 for the edits), "FILE:<path in the tree>" families from an XML input bundled with the tree.
 FAMILIES = [
     ("sym", ["synthetic pack:2 core:2 pu:2"], []),
     ("asym", ["synthetic pack:2 core:2 pu:2"], ["restrict 0 0-4"]),
@@ -25,12 +26,20 @@ FAMILIES = [
     ("misc", ["synthetic pack:2 core:2 pu:2", "filter 19 0"], ["misc 3 1 m-pu", "misc 2 2 m-core", "misc 0 0 m-root", "misc -7 0 m-below-misc", "subtype 1 0 BigPkg", "subtype 1 1 bigpkg"]),
     ("io", "XML:sym:io", []),
     ("memcache", "XML:numa2:memcache", []),
+    # topologies whose cpuset, complete cpuset and allowed cpuset differ (every helper must look at the cpuset only)
+    ("offline", "XML:sym:offline=1,6,7", []),          # PU 1 offline next to an online sibling, the last core (PUs 6-7) wholly offline
+    ("disallowed", ["synthetic node:2 core:2 pu:2", "flags 1"], ["allow 0-1,3-4,6-7 0"]),    # INCLUDE_DISALLOWED: every object kept, allowed sets smaller
+    ("disdrop", "XML:disallowed:asis", []),            # the same machine without the flag: the library itself drops PUs 2, 5 and node 1
+    ("offlines16", "FILE:tests/hwloc/xml/16em64t-4s2c2t-offlines.xml", []),    # bundled: 7 of 16 processors online
+    ("iodis", "XML:sym:io+allowed=0xf0", []),          # first package fully disallowed: it stays, without CPUs, because of its I/O children
+    ("memless", ["synthetic node:3 pu:2"], ["restrict 8 0-1"]),    # by-nodeset restrict without REMOVE_MEMLESS: PUs left without a local node
 ]
 BIG_FAMILIES = [   # thorough only, sampled argument sets
     ("big16", ["synthetic pack:2 l3:2 core:2 pu:2"], ["restrict 0 0-12,14-15"]),
     ("big12", ["synthetic [numa] pack:3 [numa] core:2 pu:2"], ["restrict 0 0-6,8-11"]),
 ]
-QUICK_FAMILIES = ("asym", "grpcore", "cpuless", "numashift", "nested", "icaches", "groups", "grpins", "interleave", "misc", "io", "memcache")
+QUICK_FAMILIES = ("asym", "grpcore", "cpuless", "numashift", "nested", "icaches", "groups", "grpins", "interleave", "misc", "io", "memcache",
+                  "offline", "disallowed", "offlines16")
 
 IO_SNIPPET = ('<object type="Bridge" gp_index="9001" bridge_type="0-1" bridge_pci="0000:[00-02]">'
               '<object type="PCIDev" gp_index="9002" name="NicCard" pci_busid="0000:01:00.0" pci_type="0200 [8086:1521] [0000:0000] 01" pci_link_speed="0.000000">'
@@ -50,8 +59,34 @@ def one_line(xml):
     return re.sub(r"\s*\n\s*", "", xml)
 
 
-def make_xml(kind, base_xml):
-    x = one_line(base_xml)
+def make_xml(kinds, base_xml):
+    """applies the '+'-separated edits to the XML export of the base family; returns (xml on one line, filter lines)"""
+    x, filters = one_line(base_xml), []
+    for kind in kinds.split("+"):
+        x, f = make_xml1(kind, x)
+        filters += f
+    return x, filters
+
+
+def make_xml1(kind, x):
+    if kind == "asis":
+        return x, []
+    if kind.startswith("offline="):
+        # what the Linux backend reports for offline processors: no PU object, bit cleared from every cpuset and from the allowed
+        # cpuset, kept in the complete cpusets
+        mask = 0
+        for p in map(int, kind.split("=")[1].split(",")):
+            x, n = re.subn(r'<object type="PU" os_index="%d"[^>]*/>' % p, "", x)
+            if n != 1:
+                raise vlib.Infra("no PU %d in the exported XML" % p)
+            mask |= 1 << p
+        return re.sub(r'(\s)(cpuset|allowed_cpuset)="(0x[0-9a-f]+)"', lambda m: '%s%s="0x%08x"' % (m.group(1), m.group(2), int(m.group(3), 16) & ~mask), x), []
+    if kind.startswith("allowed="):
+        # processors the administrator disallowed (cgroup): only the allowed cpuset of the root says so
+        x, n = re.subn(r'(\sallowed_cpuset=)"0x[0-9a-f]+"', r'\1"%s"' % kind.split("=")[1], x, count=1)
+        if n != 1:
+            raise vlib.Infra("no allowed_cpuset in the exported XML")
+        return x, []
     if kind == "io":
         m = re.search(r'<object type="Package"[^>]*>', x)
         if not m:
@@ -117,12 +152,20 @@ def prepass(ctx, exe, fams):
     run_round(plain, "a")
     items = []
     for name, spec, post in derived:
-        _, base, kind = spec.split(":")
-        if base not in info or "xml" not in info[base]:
+        src, base, kind = (spec.split(":") + ["asis"])[:3]
+        if src == "FILE":                                # an input bundled with the tree under verification
+            try:
+                base_xml = open(os.path.join(vlib.REPO, base)).read()
+            except OSError as e:
+                ctx.notes.append("family %s skipped: %s" % (name, e))
+                continue
+        elif base not in info or "xml" not in info[base]:
             ctx.notes.append("family %s skipped: its base %s could not be built" % (name, base))
             continue
+        else:
+            base_xml = info[base]["xml"]
         try:
-            xml, filters = make_xml(kind, info[base]["xml"])
+            xml, filters = make_xml(kind, base_xml)
         except vlib.Infra as e:
             ctx.notes.append("family %s skipped: %s" % (name, e))
             continue
@@ -135,6 +178,14 @@ def prepass(ctx, exe, fams):
         d["topo_file"] = p
         d["pus"] = [o["os"] for o in d["topo"]["objs"] if o["type"] == 4]
         d["npu"] = len(d["pus"])
+        # processors known to the complete cpuset of the root only (offline / dropped): MC_Helpers appends them to the mask universe,
+        # the driver only needs to know how many bits a mask has
+        known = set()
+        for lo, hi in d["topo"]["objs"][0]["ccs"]:
+            if hi >= lo:
+                known.update(range(lo, hi + 1))
+        d["ghosts"] = sorted(known - set(d["pus"]))
+        d["nbits"] = d["npu"] + len(d["ghosts"])
     return info
 
 
@@ -227,7 +278,7 @@ def query_line(q, maxos):
     raise vlib.Infra("unknown query kind %r" % k)
 
 
-INVARIANTS = ("TopoWellFormed WitnessCovering WitnessCacheCovering WitnessCommon WitnessAncDepth ThmLargest ThmFirstLargest ThmIterators "
+INVARIANTS = ("TopoWellFormed WitnessCovering WitnessCacheCovering WitnessCommon WitnessAncDepth ThmLargest ThmOutsideRoot ThmFirstLargest ThmIterators "
               "ThmClosest ThmNodesets ThmSinglify ThmTypeDepth ThmDepthType ThmDistrib ThmMemParents ThmTypeDepthAttr Emit")
 
 
@@ -240,23 +291,27 @@ def mc_cfg(topo_file, masks, xmasks, ns, light):
             "VIEW View\nINVARIANTS %s\nCHECK_DEADLOCK FALSE\n" % (topo_file, tla_set(masks), tla_set(xmasks), tla_set(ns), "TRUE" if light else "FALSE", INVARIANTS))
 
 
-def choose_params(npu, rng, thorough, sampled):
-    full = (1 << npu) - 1
-    structured = {0, full, 1, 1 << (npu - 1), 3, full >> 1, full & ~1, (full >> (npu // 2)), full & ~((1 << (npu // 2)) - 1), 5, 6}
+def choose_params(nbits, rng, thorough, sampled, npu=None):
+    """masks over the nbits processors the topology knows: the npu PUs in logical order, then the ghosts"""
+    npu = npu or nbits
+    full = (1 << nbits) - 1
+    online = (1 << npu) - 1
+    structured = {0, full, 1, 1 << (nbits - 1), 3, full >> 1, full & ~1, (full >> (nbits // 2)), full & ~((1 << (nbits // 2)) - 1), 5, 6,
+                  online, online >> 1, full & ~online, 1 | (1 << (nbits - 1))}
     structured = {m & full for m in structured}
     if thorough and not sampled:
         masks = set(range(full + 1))
-        xmasks = {0, 1, full, 6 & full, full >> 1, 1 << (npu - 1)} | {rng.randrange(full + 1) for _ in range(2)}
+        xmasks = {0, 1, full, online, 6 & full, full >> 1, 1 << (nbits - 1)} | {rng.randrange(full + 1) for _ in range(2)}
         ns = set(range(1, 2 * npu + 2))
         light = False
     elif thorough:
         masks = structured | {rng.randrange(full + 1) for _ in range(300)}
-        xmasks = {0, 1, full} | {rng.randrange(full + 1) for _ in range(4)}
+        xmasks = {0, 1, full, online} | {rng.randrange(full + 1) for _ in range(4)}
         ns = set(range(1, npu + 3)) | {2 * npu, 2 * npu + 1}
         light = False
     else:
         masks = structured | {rng.randrange(full + 1) for _ in range(20)}
-        xmasks = {0, full, rng.randrange(full + 1)}
+        xmasks = {0, full, online, rng.randrange(full + 1)}
         ns = {1, 2, 3, npu - 1, npu, npu + 1, 2 * npu + 1} | {rng.randrange(1, 2 * npu + 2)}
         ns = {n for n in ns if n >= 1}
         light = True
@@ -284,18 +339,21 @@ def run(ctx, replay=None):
 
     thorough = ctx.tier == "thorough"
     rng = random.Random(ctx.seed)
-    fams = [f for f in FAMILIES if thorough or f[0] in QUICK_FAMILIES or f[0] in ("sym", "numa2")]
+    only = [x for x in os.environ.get("HWV_C09_FAMILIES", "").split(",") if x]    # debugging aid: these families only (never set by check.py or the manifest)
+    fams = [f for f in FAMILIES if thorough or f[0] in QUICK_FAMILIES or f[0] in ("sym", "numa2") or f[0] in only]
     sampled = set()
     if thorough:
         fams = fams + BIG_FAMILIES
         sampled = {f[0] for f in BIG_FAMILIES}
     info = prepass(ctx, exe, fams)
-    names = [f[0] for f in fams if (thorough or f[0] in QUICK_FAMILIES) and f[0] in info]
-    if len(names) < 5:
+    names = [f[0] for f in fams if (thorough or f[0] in QUICK_FAMILIES or f[0] in only) and f[0] in info]
+    if only:
+        names = [n for n in names if n in only]
+    elif len(names) < 5:
         raise vlib.Infra("only %d topology families could be built" % len(names))
 
     # (1) TLC: enumerate the queries of each family over its real projection, check the model-level invariants
-    params = {n: choose_params(info[n]["npu"], rng, thorough, n in sampled) for n in names}
+    params = {n: choose_params(info[n]["nbits"], rng, thorough, n in sampled or info[n]["nbits"] > 8, npu=info[n]["npu"]) for n in names}
 
     def mc(name):
         masks, xmasks, ns, light = params[name]
@@ -314,7 +372,7 @@ def run(ctx, replay=None):
     nq = {}
     for name, qs in results:
         d = info[name]
-        maxos = max(d["pus"])
+        maxos = max(d["pus"] + d["ghosts"])
         lines = [l for l in (query_line(q, maxos) for q in qs) if l]
         lines = sorted(set(lines))
         rng.shuffle(lines)
@@ -344,9 +402,12 @@ def run(ctx, replay=None):
         ctx.notes.append(dline)
     return ctx.finish(
         rule="for each topology family (symmetric, asymmetric by restrict, CPU-less NUMA node, nested memory, caches incl. instruction caches, "
-             "multi-depth Groups, inserted Group, interleaved PU numbering, no Core level, Misc, I/O subtree with names/subtypes, MemCache) the real topology is projected, TLC enumerates "
-             "the helper queries over that projection from MC_Helpers.tla (all subsets of <= 8 PUs in the thorough tier, all objects / pairs / depths / types, n in 1..2|PU|+1, all until depths, "
-             "both flag values) and checks witnesses/consequences on the model; each query is executed on the rebuilt library and judged by the brute-force relations of Helpers.tla. "
+             "multi-depth Groups, inserted Group, interleaved PU numbering, no Core level, Misc, I/O subtree with names/subtypes, MemCache, offline processors (edited export and the bundled "
+             "16em64t-4s2c2t-offlines.xml), disallowed processors / node kept (INCLUDE_DISALLOWED + hwloc_topology_allow) and dropped by the library, a CPU-less Package kept for its I/O, "
+             "PUs without local node) the real topology is projected, TLC enumerates the helper queries over that projection from MC_Helpers.tla - argument sets are drawn from every "
+             "processor / node the topology mentions in any of its sets (PUs, then the ghosts of the complete cpuset; all subsets of <= 8 of them in the thorough tier) plus the sets the "
+             "topology names itself (cpuset, complete cpuset, allowed / disallowed part of every object), all objects / pairs / depths / types, n in 1..2|PU|+1, all until depths, "
+             "both flag values - and checks witnesses/consequences on the model; each query is executed on the rebuilt library and judged by the brute-force relations of Helpers.tla. "
              "Non-trivial = the behaviour contains at least one helper call on a well-formed topology.",
         assumptions=["topologies are bounded (<= 16 PUs); families are fixed, argument sets beyond 8 PUs are sampled",
                      "helpers documented as not working on objects without cpusets are not called on I/O and Misc objects",
